@@ -2,6 +2,7 @@ package characteristic
 
 import (
 	"fmt"
+	"math"
 	"net"
 
 	"github.com/xiam/to"
@@ -127,6 +128,16 @@ func (c *Characteristic) updateValue(value interface{}, conn net.Conn, checkPerm
 		value = c.clampFloat(value.(float64))
 	case FormatUInt8, FormatUInt16, FormatUInt32, FormatUInt64, FormatInt32:
 		value = c.clampInt(value.(int))
+	case FormatString, FormatTLV8, FormatData:
+		if _, ok := value.(string); !ok {
+			// ignore values which are not strings
+			return
+		}
+	}
+
+	if f, ok := value.(float64); ok && (math.IsNaN(f) || math.IsInf(f, 0)) {
+		// ignore values which are not finite numbers (e.g. converted from the strings "NaN" or "Inf")
+		return
 	}
 
 	if c.Value == value && !c.updateOnSameValue {
